@@ -22,6 +22,9 @@ def main():
     for key, rec in sorted(TABLE.items()):
         ID, n = key.split('-')
         src = '/tmp/seed-%s-out' % ID
+        if int(n) >= 3:  # second round: seeded/<ID>-3 and -4 come from /tmp/seed2-<ID>-out/{patch,demo,notes}{1,2}
+            src = '/tmp/seed2-%s-out' % ID
+            n = str(int(n) - 2)
         dst = os.path.join(HERE, 'seeded', key)
         if os.path.isdir(src):
             os.makedirs(dst, exist_ok=True)
